@@ -21,6 +21,8 @@ pub struct Cfg {
     pub search_every_ms: Option<u64>,
     /// every send_to takes this long
     pub send_delay_ms: u64,
+    /// the application calls bootstrapped() at this period
+    pub poll_bootstrapped_ms: Option<u64>,
     pub rng_seed: u64,
 }
 
@@ -84,6 +86,15 @@ pub fn build(cfg: &Cfg) -> (Scenario, Vec<Box<dyn Peer>>) {
             sc.actions.push((crate::sim::When::At(t), crate::sim::Action::Search { node: 0, info_hash: InfoHash::sha1(format!("c18-{j}").as_bytes()), announce: true, tag: format!("s{j}") }));
             // phases drift through the 6 s refresh period and the 5 s re-bootstrap period
             t += every + (j % 7) * 190;
+            j += 1;
+        }
+    }
+    if let Some(every) = cfg.poll_bootstrapped_ms {
+        let mut t = 2_000u64;
+        let mut j = 0;
+        while t < cfg.minutes * 60_000 {
+            sc.actions.push((crate::sim::When::At(t), crate::sim::Action::Bootstrapped { node: 0, tag: format!("poll{j}") }));
+            t += every;
             j += 1;
         }
     }
@@ -159,7 +170,7 @@ pub fn judge(cfg: &Cfg, res: &RunResult) -> Verdict {
 }
 
 fn cfg_json(c: &Cfg) -> Value {
-    json!({"contacts":c.contacts,"outages":c.outages,"minutes":c.minutes,"latency":c.latency,"unreachable_hearsay":c.unreachable_hearsay,"search_every_ms":c.search_every_ms,"send_delay_ms":c.send_delay_ms,"rng_seed":c.rng_seed})
+    json!({"contacts":c.contacts,"outages":c.outages,"minutes":c.minutes,"latency":c.latency,"unreachable_hearsay":c.unreachable_hearsay,"search_every_ms":c.search_every_ms,"send_delay_ms":c.send_delay_ms,"poll_bootstrapped_ms":c.poll_bootstrapped_ms,"rng_seed":c.rng_seed})
 }
 
 pub fn replay(v: &Value) -> i32 {
@@ -172,6 +183,7 @@ pub fn replay(v: &Value) -> i32 {
         unreachable_hearsay: c["unreachable_hearsay"].as_bool().unwrap_or(false),
         search_every_ms: c["search_every_ms"].as_u64(),
         send_delay_ms: c["send_delay_ms"].as_u64().unwrap_or(0),
+        poll_bootstrapped_ms: c["poll_bootstrapped_ms"].as_u64(),
         rng_seed: c["rng_seed"].as_u64().unwrap_or(1),
     };
     let (sc, peers) = build(&cfg);
@@ -199,9 +211,9 @@ pub fn run(tier: Tier) -> Report {
                     if minutes >= 360 && latency != 20 {
                         continue;
                     }
-                    cfgs.push(Cfg { contacts, outages, minutes, latency, unreachable_hearsay: false, search_every_ms: None, send_delay_ms: 0, rng_seed: 1 + seed });
+                    cfgs.push(Cfg { contacts, outages, minutes, latency, unreachable_hearsay: false, search_every_ms: None, send_delay_ms: 0, poll_bootstrapped_ms: None, rng_seed: 1 + seed });
                     if latency == 20 {
-                        cfgs.push(Cfg { contacts, outages, minutes, latency, unreachable_hearsay: true, search_every_ms: None, send_delay_ms: 0, rng_seed: 1 + seed });
+                        cfgs.push(Cfg { contacts, outages, minutes, latency, unreachable_hearsay: true, search_every_ms: None, send_delay_ms: 0, poll_bootstrapped_ms: None, rng_seed: 1 + seed });
                     }
                 }
             }
@@ -209,16 +221,20 @@ pub fn run(tier: Tier) -> Report {
     }
     if tier == Tier::Quick {
         for contacts in 1..=3usize {
-            cfgs.push(Cfg { contacts, outages: false, minutes: 60, latency: 20, unreachable_hearsay: contacts == 2, search_every_ms: None, send_delay_ms: 0, rng_seed: 1 + seed });
+            cfgs.push(Cfg { contacts, outages: false, minutes: 60, latency: 20, unreachable_hearsay: contacts == 2, search_every_ms: None, send_delay_ms: 0, poll_bootstrapped_ms: None, rng_seed: 1 + seed });
         }
-        cfgs.push(Cfg { contacts: 1, outages: true, minutes: 70, latency: 20, unreachable_hearsay: false, search_every_ms: None, send_delay_ms: 0, rng_seed: 1 + seed });
+        cfgs.push(Cfg { contacts: 1, outages: true, minutes: 70, latency: 20, unreachable_hearsay: false, search_every_ms: None, send_delay_ms: 0, poll_bootstrapped_ms: None, rng_seed: 1 + seed });
     }
     // user activity: announcing searches every ~3 s, sends that take time (handler awaits inside a lookup
     // while bootstrap completions arrive)
     for contacts in 1..=2usize {
         for (every, delay) in [(2_600u64, 300u64), (3_100, 0), (2_600, 40)] {
-            cfgs.push(Cfg { contacts, outages: false, minutes: tier.pick(20, 60), latency: 20, unreachable_hearsay: contacts == 1, search_every_ms: Some(every), send_delay_ms: delay, rng_seed: 1 + seed });
+            cfgs.push(Cfg { contacts, outages: false, minutes: tier.pick(20, 60), latency: 20, unreachable_hearsay: contacts == 1, search_every_ms: Some(every), send_delay_ms: delay, poll_bootstrapped_ms: None, rng_seed: 1 + seed });
         }
+    }
+    // an application that polls bootstrapped() (status display) while the node is bootstrapped
+    for contacts in [1usize, 3] {
+        cfgs.push(Cfg { contacts, outages: false, minutes: 10, latency: 20, unreachable_hearsay: false, search_every_ms: None, send_delay_ms: 0, poll_bootstrapped_ms: Some(200), rng_seed: 1 + seed });
     }
     let outs = par_map(&cfgs, |_, cfg| {
         let (sc, peers) = build(cfg);
